@@ -1,6 +1,7 @@
 package fieldprop
 
 import (
+	"fmt"
 	"path/filepath"
 	"regexp"
 	"strings"
@@ -227,13 +228,16 @@ func InReferredSpace(prop *tableaupb.FieldProp, cellData string, input *Input) (
 		return true, nil
 	}
 
-	loadFunc := func(refer string) (*ValueSpace, error) {
-		return loadValueSpace(refer, input)
-	}
-
 	// NOTE: prop.Refer is comma separated, e.g.: "SheetName(SheetAlias).ColumnName[,SheetName(SheetAlias).ColumnName]..."
 	for _, refer := range strings.Split(prop.Refer, ",") {
-		ok, err := referredCache.ExistsValue(refer, cellData, loadFunc)
+		refer := refer
+		loadFunc := func(string) (*ValueSpace, error) {
+			return loadValueSpace(refer, input)
+		}
+		// The cache is process-wide: a value space belongs to the inputs it was
+		// loaded from, so key it by them (proto registry and input dir) as well.
+		cacheKey := fmt.Sprintf("%p|%s|%s", input.PRFiles, input.InputDir, refer)
+		ok, err := referredCache.ExistsValue(cacheKey, cellData, loadFunc)
 		if err != nil {
 			return false, err
 		}
